@@ -734,9 +734,137 @@ def correspond_engine_changes(ctx):
   ctx.extra['cases_in_coq'] = ctx.extra.get('cases_in_coq', 0) + len(cases)
 
 
+# ---- formula cells: what a formula returns -> convert -> set -> save -> load, against the recomputed convert(result) -------
+
+FORMULA_TEXTS = ['[2021, 7]', '["a", "b"]', '["a", null]', '[true]', '[[1]]', '[["a"]]', '[]', '[1', '[1.5]', '["a", 1]', '[1, 2]', '[1, -2]',
+                 '[0]', '[2147483648]', '{"a": 1}', '5', '1.5', ' 12 ', '1e3', 'true', 'no', 'YES', '0', '2020-01-02', '2020-01-02T10:00:00',
+                 '2020-01-02 10:00:00+02:00', 'RecordList([1, 2], group_by=None, sort_by=None)', 'RecordList([7])', '', 'abc', 'inf', 'nan']
+
+
+def formula_results():
+  import datetime
+  return FORMULA_TEXTS + [
+    5, 0, 1, -3, 2.5, 5.0, 0.0, -0.0, True, False, None, 2 ** 31, 2 ** 40, [1, 2], ['a', 'b'], ('a', 'b'), (1, 2), [], (), ['a', 1], [1.5], [[1]],
+    b'x', b'[1]', datetime.date(2020, 1, 2), datetime.datetime(2020, 1, 2, 10, 30), float('nan'), float('inf'), [float('nan')], (float('nan'), 1),
+    {'a': 1}, {'a': float('nan')}, [None], [True], 86400, 86400.0, 1e18]
+
+
+def formula_cell(t, r):
+  """A formula of a column of type t returned r. None if the pipeline does not get through; else (x, s, w, emitted):
+  x = column.convert(r) is what _recompute_step compares and sets, s what set stores, w what the saved cell is loaded as, and
+  emitted says whether recomputing the cell right after the load (x against w) ends in a stored action."""
+  import objtypes
+  col = fixture()[t]
+  try:
+    x = col.convert(r)
+  except BaseException:
+    return None
+  st = real_set(t, x)
+  if st[0] != 'ok':
+    return None
+  try:
+    res2, pairs = real_cell_reload(t, st[1])
+  except ValueError:
+    return None
+  if res2[0] != 'ok':
+    return None
+  w = res2[1]
+  emitted = (not objtypes.strict_equal(x, w)) and (not objtypes.equal_encoding(w, x))
+  return x, st[1], w, emitted, pairs
+
+
+def formula_cell_stream(ctx):
+  rng = ctx.rng
+  out = []
+  for r in formula_results():
+    for t in COLTYPES:
+      out.append((t, r))
+  for _ in range(ctx.n(120, 3000)):
+    out.append((rng.choice(COLTYPES), pv.gen_value(rng)))
+  return out
+
+
+def classify_formula_cell(r, x, s, w):
+  """why a recomputed formula cell differs from its own saved value"""
+  if not encodable_plain(x):
+    return 'nan_inside_container'
+  if not isinstance(r, str) and isinstance(x, str) and not pv.same(s, x):
+    return 'fallback_text_reparsed_by_set'
+  return 'formula_cell_not_fixpoint'
+
+
+def correspond_formula_cells(ctx):
+  """the model of the same pipeline: col_set T (convert T r), reload, flush_cell (recompute_cell w (convert T r))"""
+  import objtypes
+  rng = ctx.rng
+  stream = [c for c in formula_cell_stream(ctx) if c[0].split(':')[0] not in ('Ref', 'RefList', 'Attachments')]
+  if ctx.tier != 'thorough':
+    stream = rng.sample(stream, min(len(stream), 320))
+  cases, meta = [], []
+  seen = set()
+  for t, r in stream:
+    try:
+      fc = formula_cell(t, r)
+      if fc is None:
+        continue
+      x, s, w, emitted, pairs = fc
+      if not (comparable(x) and comparable(w)):
+        continue
+      b = pv.Builder()
+      zones = (t.split(':', 1)[1],) if t.startswith('DateTime') else ()
+      for v in (r, x, s, w):
+        b.collect(v, zones)
+      collect_encoded(b, objtypes.encode_object(s))
+      for y, _m in pairs:
+        if type(y) is not bytes:
+          b.collect(y)
+      lit = lit_case(b.val(r), b.tables(), ctype_lit(t), pairs_lit(b, pairs), pv.blit(emitted))
+    except RecursionError:
+      continue
+    if lit in seen:
+      continue
+    seen.add(lit)
+    cases.append(lit)
+    meta.append((t, r, emitted))
+    ctx.count('f' + lit, nontrivial=not pv.same(x, r) or not pv.same(s, x), kind='formula-cell:%s:%s' % (t.split(':')[0], 'emits' if emitted else 'quiet'))
+  bad = ctx.run_cases('formulacell', IMPORTS,
+                      'fun c => match c with (r, tbl, T, mp, em) => let orc := oracles_of tbl in let x := convert orc T r in '
+                      'match col_set orc T x with Ok s => match reload orc (marshal_of mp) (unmarshal_of mp) T %d (s, None) with '
+                      '| Ok (w, _) => Bool.eqb (match flush_cell orc %d (recompute_cell orc w x) with Some _ => true | None => false end) em '
+                      '| Raise _ => false end | Raise _ => false end end' % (FUEL, FUEL),
+                      cases, shard=60 if ctx.tier == 'quick' else 120, timeout=TIMEOUT(ctx),
+                      case_type='(value * tables * ctype * list (value * list Z) * bool)%type')
+  for k in bad[:6]:
+    t, r, emitted = meta[k]
+    ctx.broken('correspondence:model of convert/set/reload/flush differs from the implementation on a formula cell',
+               'type %s, formula result %s: stored action after reload = %r' % (t, pv.to_expr(r)[:120], emitted))
+  ctx.extra['cases_in_coq'] = ctx.extra.get('cases_in_coq', 0) + len(cases)
+
+
+def search_formula_cells(ctx):
+  """the property on the implementation, one cell at a time: a formula cell recomputed right after the load stores nothing"""
+  reported = collections.Counter()
+  for t, r in formula_cell_stream(ctx):
+    fc = formula_cell(t, r)
+    if fc is None:
+      ctx.bump('formula-cell:pipeline stops')
+      continue
+    x, s, w, emitted, _pairs = fc
+    ctx.count(('fcell', t, pv.to_expr(r)[:200]), nontrivial=not pv.same(x, r) or not pv.same(s, x),
+              kind='search-cell:%s' % ('emits' if emitted else 'quiet'))
+    if emitted:
+      kind = classify_formula_cell(r, x, s, w)
+      reported[kind] += 1
+      if reported[kind] <= 3:
+        ctx.violation(kind, 'a %s formula cell whose formula returns %s is converted to %s, stored as %s, loaded as %s: recomputing it after the '
+                      'load stores an action' % (t, pv.to_expr(r)[:80], pv.to_expr(x)[:60], pv.to_expr(s)[:60], pv.to_expr(w)[:60]),
+                      {'cell': {'type': t, 'expr': pv.to_expr(r)}, 'kind': kind})
+
+
 def correspond(ctx):
   core.setup_impl_path()
   correspond_engine_changes(ctx)
+  correspond_formula_cells(ctx)
   ctx.log('engine change detection evaluated')
   correspond_cells(ctx)
   ctx.log('cells evaluated')
@@ -780,6 +908,14 @@ def make_gen(rng, rich):
 
     def gen(self, kind, meta):
       r = self.r
+      if kind == 'addtypedformula':
+        t = self.pick_table(meta)
+        if t is None:
+          return None
+        cid = r.choice(histgen.COL_NAMES)
+        self.pend(t['tableId'], cid, 1)
+        ty = r.choice(histgen.TYPES + ['Ref:' + t['tableId'], 'RefList:' + t['tableId'], 'Int', 'Bool', 'ChoiceList', 'ChoiceList'])
+        return ['AddColumn', t['tableId'], cid, {'type': ty, 'isFormula': True, 'formula': pv.to_expr(r.choice(formula_results()))}]
       if kind not in ('addtrigger', 'addprobe'):
         return histgen.HistGen.gen(self, kind, meta)
       t = self.pick_table(meta)
@@ -803,7 +939,7 @@ def make_gen(rng, rich):
       self.pend(tid, cid, level)
       return ['AddColumn', tid, cid, {'type': 'Any', 'isFormula': True, 'formula': r.choice(PROBES) % r.choice(own)['colId']}]
 
-  w = {'addtrigger': 6, 'addprobe': 8 if rich else 3, 'todata': 3, 'invalid': 1, 'summary': 1, 'label': 0}
+  w = {'addtrigger': 6, 'addtypedformula': 5, 'addprobe': 8 if rich else 3, 'todata': 3, 'invalid': 1, 'summary': 1, 'label': 0}
   return Gen(rng, weights=w)
 
 
@@ -912,7 +1048,15 @@ def scrub(x):
   return x
 
 
-def outcome(f, out, saved=None):
+def has_nested_nan(x, top=True):
+  if isinstance(x, list):
+    return any(i == 'NaN' or has_nested_nan(i, False) for i in x)
+  if isinstance(x, dict):
+    return any(v == 'NaN' or has_nested_nan(v, False) for v in x.values())
+  return False
+
+
+def outcome(f, out, saved=None, notes=None):
   """(tables, stored actions) of a load, addresses scrubbed; an update that only rewrites an address-bearing text to the
   same text with another address (saved: the scrubbed tables of the saved engine) is dropped."""
   from harness import gristenv as G
@@ -928,7 +1072,13 @@ def outcome(f, out, saved=None):
           vals = [vals] if a[0] == 'UpdateRecord' else vals
           col = saved[a[1]]['cols'].get(c)
           for r, v in zip(rows, vals):
-            if not (col is not None and r in ids and isinstance(v, str) and ' at 0x?>' in v and col[ids.index(r)] == v):
+            same = col is not None and r in ids and col[ids.index(r)] == v
+            if same and has_nested_nan(v):
+              # the known finding nan_inside_container: the cell is rewritten with the value it already has, because a NaN
+              # inside a container never compares equal to another NaN object
+              if notes is not None:
+                notes.append((a[1], c, r))
+            elif not (same and isinstance(v, str) and ' at 0x?>' in v):
               volatile = False
         if volatile:
           continue
@@ -942,16 +1092,22 @@ def check_reload(e, classify=True):
   from harness import gristenv as G
   s1 = scrub(G.snapshot(e))
   quiet = (s1, [])
+  nan_cells = []
   try:
-    got = outcome(*real_reload(e), saved=s1)
+    got = outcome(*real_reload(e), saved=s1, notes=nan_cells)
   except Exception:
     return [('reload-raises', 'loading the saved document raised: ' + traceback.format_exc()[-300:])]
+  nan_issue = []
+  if nan_cells:
+    t, c, r = nan_cells[0]
+    nan_issue = [('nan_inside_container', 'Calculate after reload rewrites %d cell(s) holding a NaN inside a list/dict with the value they '
+                  'already have, e.g. %s.%s row %s' % (len(nan_cells), t, c, r))]
   if got == quiet:
-    return []
+    return nan_issue
   what = 'Calculate after reload stored %s; %s' % (repr(got[1])[:260], '; '.join(G.diff_snapshots(s1, got[0], limit=3)))
   if not classify:
     return [('changed', what)]
-  issues = []
+  issues = list(nan_issue)
   # Was the document stale before it was saved?  A load of the engine's own objects (no encoding, no marshal, no decoding)
   # that already changes something is recalculation from scratch disagreeing with the incremental state: C05's subject.
   target = quiet
@@ -1003,6 +1159,7 @@ def search(ctx):
   core.setup_impl_path()
   n_hist, nb = ctx.n(24, 400), ctx.n(8, 14)
   reported = collections.Counter()
+  search_formula_cells(ctx)
   # regression corpus first: witnesses of repaired findings (they must stay quiet) and their variations
   for name, history in CORPUS:
     res = check_reload(build(history))
@@ -1026,6 +1183,10 @@ def search(ctx):
           cols = [{'id': 'c%d' % i, 'type': ty, 'isFormula': False} for i, ty in enumerate(tys)]
           cols += [{'id': 'p%d' % i, 'type': 'Any', 'isFormula': True, 'formula': rng.choice(['repr($c%d)', 'type($c%d).__name__']) % i}
                    for i in range(len(tys))]
+          # formula columns of every type whose formulas return texts the type may re-parse and values of the wrong type
+          fr = formula_results()
+          cols += [{'id': 'f%d' % i, 'type': ty, 'isFormula': True, 'formula': pv.to_expr(rng.choice(fr))}
+                   for i, ty in enumerate(tys + ['ChoiceList', 'ChoiceList', 'Ref:Typed', 'RefList:Typed'])]
           bundle = [['AddTable', 'Typed', cols]]
         else:
           tys = ['ChoiceList', 'Bool', 'Numeric', 'Date', 'Int', 'Text', 'Choice', 'DateTime:UTC', 'Any']
@@ -1077,6 +1238,15 @@ def search(ctx):
 
 def replay(ctx, w):
   core.setup_impl_path()
+  if 'cell' in w:
+    r = pv.from_expr(w['cell']['expr'])
+    fc = formula_cell(w['cell']['type'], r)
+    if fc is None or not fc[3]:
+      return None
+    kind = classify_formula_cell(r, fc[0], fc[1], fc[2])
+    if w.get('kind') and kind != w['kind']:
+      return None
+    return '%s: %s formula cell returning %s stores an action when recomputed after the load' % (kind, w['cell']['type'], w['cell']['expr'])
   res = check_reload(build(w['history']))
   for kind, what in res:
     if not w.get('kind') or kind == w['kind']:
